@@ -153,7 +153,17 @@ TraceGroupSwap ==
                                       /\ Cells(e.b[g][i]) = SwapCells(e.a[g][i])
                                       /\ Cells(e.a2[g][i]) = Cells(e.a[g][i]))>>}))
 
-Next == TraceGroupSwap \/ TraceNew \/ TraceDerive \/ TraceProbe \/ TraceSetEasy \/ TraceBigPair
+(* history: the caller re-assigns the configuration attributes of a live object (as enum members  *)
+(* or as the plain strings the label type compares equal to)                                      *)
+TraceSetConfig ==
+  /\ IsEvent("SetConfig")
+  /\ LET e == Log[l]
+         o == [store[e.h] EXCEPT !.sc = e.sc, !.ec = e.ec]
+     IN /\ store' = (e.h :> o) @@ store /\ UNCHANGED <<obs, link>>
+        /\ Report(e, Failing({<<"C08.raised", e.exc = "">>,
+                              <<"C08.state_after_assigning_configuration", e.exc # "" \/ ObjOfRec(e.post) = o>>}))
+
+Next == TraceGroupSwap \/ TraceNew \/ TraceDerive \/ TraceProbe \/ TraceSetEasy \/ TraceBigPair \/ TraceSetConfig
 Spec == Init /\ [][Next]_vars
 AllConsumed == TLCGet("stats").diameter - 1 = Len(Log)
 =============================================================================
